@@ -20,6 +20,29 @@ ARG_VALUES = [G.INT_LIT, lambda: G.STRING("s"), G.FLOAT_LIT, lambda: G.SYMBOL(":
               lambda: G.UNION([G.INT_LIT(), G.UNTYPED()]), G.IDENT, G.BLOCK, G.RANGE]
 
 
+FIT = {
+    "Int": [G.INT_LIT], "String": [lambda: G.STRING("s")], "Float": [G.FLOAT_LIT], "Symbol": [lambda: G.SYMBOL(":a")],
+    "Bool": [G.BOOL], "NilClass": [G.NIL], "Untyped": [G.INT_LIT, lambda: G.OBJECT("K")], "K": [lambda: G.OBJECT("K")],
+    "L": [lambda: G.OBJECT("L")], "Array": [lambda: G.ARRAY([G.INT_LIT()])], "Hash": [lambda: G.HASH([])],
+}
+
+
+def fitting(r, tn):
+    names = tn.split("|")
+    pool = []
+    for n in names:
+        pool += FIT.get(n, [])
+    if len(names) > 1 and r.random() < 0.4:
+        vs = [r.choice(FIT[n])() for n in r.sample(names, r.randint(2, len(names))) if n in FIT]
+        if len(vs) >= 2:
+            return G.UNION(vs)
+    return r.choice(pool or [G.INT_LIT])()
+
+
+def pick(r, tn):
+    return fitting(r, tn) if r.random() < 0.75 else r.choice(ARG_VALUES)()
+
+
 def builtin(t, hd=False, ast=False):
     t = dict(t)
     t["bi"] = True
@@ -81,15 +104,15 @@ def gen_call(r, meta):
     mode = r.random()
     for kind, name, tn in meta:
         if kind in ("req", "post"):
-            pos.append(r.choice(ARG_VALUES)())
+            pos.append(pick(r, tn))
         elif kind == "opt" and r.random() < 0.5:
-            pos.append(r.choice(ARG_VALUES)())
+            pos.append(pick(r, tn))
         elif kind == "rest":
             for _ in range(r.choice([0, 1, 2, 3])):
-                pos.append(r.choice(ARG_VALUES)())
+                pos.append(pick(r, tn))
         elif kind in ("key_req", "key_opt"):
             if kind == "key_req" or r.random() < 0.5:
-                kws.append(G.KEYVALUE(name + ":", r.choice(ARG_VALUES)()))
+                kws.append(G.KEYVALUE(name + ":", pick(r, tn)))
         elif kind == "kwrest":
             for k in r.sample(["x", "y", "q"], r.choice([0, 1, 2])):
                 kws.append(G.KEYVALUE(k + ":", r.choice(ARG_VALUES)()))
